@@ -2,7 +2,7 @@
 implementation-level oracle used to search for a concrete failing input."""
 import re
 
-from . import gen_kzg, gen_pc, gen_c16, gen_c13
+from . import gen_kzg, gen_pc, gen_c16, gen_c13, gen_c08
 from .oracles import pc_honest, pc_mutations, pc_refusals, pc_hiding
 
 
@@ -143,6 +143,36 @@ def cmp_c13_t(lib_toks_, model_toks):
     return len(lib_toks_) == 1 and lib_toks_[0] in model_toks
 
 
+def oracle_c08(case, lo):
+    fails = []
+    if case.kind != "c08":
+        return fails
+    sch = case.meta["scheme"]
+    for step in ("setup", "trim", "commit"):
+        if lib_s(lo, step) != "ok":
+            fails.append("%s %s of an in-domain request -> %s (%s)" % (sch, step, lib_s(lo, step), case.meta["shapes"][0]))
+            return fails
+    if lib_s(lo, "additive") == "fails":
+        fails.append("%s commit(a*p+b*q) != a*commit(p)+b*commit(q) (%s)" % (sch, case.meta["shapes"][0]))
+    if lib_s(lo, "zero_is_identity") == "no":
+        fails.append("%s commitment of the zero polynomial is not the identity" % sch)
+    if lib_s(lo, "repr_invariant") == "fails":
+        fails.append("%s commitment depends on the representation (high-order zeros / term order) (%s)" % (sch, case.meta["shapes"][0]))
+    if lib_s(lo, "deterministic") == "no":
+        fails.append("%s non-hiding commitment is not a function of (key, polynomial)" % sch)
+    if lib_s(lo, "rng_bytes") not in (None, "0") and sch != "hyrax":
+        fails.append("%s non-hiding commit consumed randomness" % sch)
+    if lib_s(lo, "p_q_equal") == "equal" and not case.meta["p_eq_q"]:
+        fails.append("%s different polynomials have the same commitment" % sch)
+    if lib_s(lo, "p_q_equal") == "differ" and case.meta["p_eq_q"] and sch != "hyrax":
+        fails.append("%s equal polynomials have different commitments" % sch)
+    for i in range(5):
+        if lib_s(lo, "reference.%d" % i) == "differs":
+            fails.append("%s commitment %d differs from the independent recomputation (%s)"
+                         % (sch, i, "Merkle root over column hashes of the encoded coefficient matrix" if sch != "hyrax" else "row-wise Pedersen sums over the key"))
+    return fails
+
+
 def lib_toks(lo, name):
     v = lo.get(name)
     return v[1] if v else None
@@ -248,5 +278,11 @@ PROPS = {
         "flows": [(gen_kzg.gen, "c07", 60, 600), (gen_pc.gen, "c07", 150, 1500)],
         "oracles": [oracle_c01_kzg, pc_honest, pc_hiding],
         "title": "Hiding",
+    },
+    "C08": {
+        "props_file": "props/C08.v",
+        "flows": [(gen_c08.gen, "c08", 160, 1600), (gen_kzg.gen, "c08", 30, 300)],
+        "oracles": [oracle_c08, oracle_c01_kzg],
+        "title": "Commitments are the key-defined linear map",
     },
 }
